@@ -140,3 +140,14 @@ Example wlg_limits :
   lderive_limits Q (qleaves (-1000) 1000) [(0%nat, Build_spec Q FLogGaussian (1 # 4) 4 0 0 None)] 0 (1 # 2, 2) =
   Ok (Build_spec Q FLogGaussian (Qmax (1 # 2) (1 # 4)) (Qmin 2 4) (Qmax (1 # 2) (1 # 4)) (Qmax (1 # 2) (1 # 4)) None).
 Proof. vm_compute. reflexivity. Qed.
+
+(* C12_relative_width_float / C12_absolute_width_float are not vacuous: factors meeting `0 <= r` include -0.0 and
+   infinity, and the widths they give for values of either sign, zero, infinite and NaN are as the theorem says *)
+Example relative_width_float_hypothesis :
+  PrimFloat.leb 0 0x1p-2%float = true /\ PrimFloat.leb 0 neg_zero = true /\ PrimFloat.leb 0 infinity = true /\
+  pm_rel_width_F 0x1p-2%float (-8)%float = 2%float /\ sigma_negative_F (pm_rel_width_F 0x1p-2%float (-8)%float) = false /\
+  sigma_negative_F (wm_relative_F neg_zero infinity) = false /\ sigma_negative_F (wm_relative_F infinity (-0x1p-1074)%float) = false /\
+  sigma_negative_F (pm_rel_width_F 1%float nan) = false /\
+  (* and a negative factor is what the test rejects *)
+  sigma_negative_F (pm_rel_width_F (-1)%float 3%float) = true.
+Proof. repeat split; vm_compute; reflexivity. Qed.
